@@ -111,7 +111,12 @@ pub fn build_pretty_string_item(
 
     let marker_start_ofs_len = start - line_start;
     let marker_start_tab_len = blank_counter::count_tabspace(&content[line_start..start]);
-    let marker_end_ofs_len = end - line_end_start_pos - 1;
+    // Offset of the last removed character (which may be multi-byte) in its line.
+    let last_char_len = content[..end]
+        .chars()
+        .next_back()
+        .map_or(1, |c| c.len_utf8());
+    let marker_end_ofs_len = end - line_end_start_pos - last_char_len;
     let marker_end_tab_len = blank_counter::count_tabspace(&content[line_end_start_pos..end]);
     let mut result = String::with_capacity(
         (marker_start_ofs_len + line_number_ofs - marker_start_tab_len + (marker_start_tab_len * TABSPACE.len())  + marker_start_color.len() + MARKER_START.len() + reset_color.len())    // start marker
